@@ -1109,6 +1109,17 @@ def generate(repo=None):
             delayed.add(m.replace("on_enter_", "do_repeat_"))
         out[c]["plain"] = sorted(plain)
         out[c]["delayed"] = sorted(delayed)
+    # who sends what to whom as a plain message (for the 'only the master starts the slave' side conditions)
+    snd = set()
+    for c in CONTROLLERS:
+        for m in disp.get(c, ()):
+            snd.add(("<dispatcher>", c, m))
+    for (s_, h, rcv, m, kind) in ctx["tells"]:
+        snd.add((s_, rcv, m))
+    for (s_, h, rcv, m, to) in ctx["asks"]:
+        if not m.startswith("set:"):
+            snd.add((s_, rcv, m))
+    ctx["senders"] = sorted(snd)
     for c in CONTROLLERS:
         hv = []
         leaves = ctx["leaves"][c]
@@ -1179,6 +1190,8 @@ def lean_str(s):
 def emit(ctx, out, path):
     lines = ["-- GENERATED by translate/actors.py from the repository's working tree. Do not edit.", "import Poupool.Model.Actor", "namespace Poupool.Gen", "open Poupool", ""]
     lines.append(f"def names : List String := {L_list([lean_str(s) for s in ctx['names'].list])}")
+    lines.append("/-- (sender, receiver, message): every plain message some code sends (dispatcher table, tells, asks, self-tells) -/")
+    lines.append("def senders : List (String × String × String) := " + L_list(["(%s, %s, %s)" % (lean_str(a), lean_str(b), lean_str(c_)) for (a, b, c_) in ctx.get("senders", [])]))
     lines.append("-- config.ini values, in half seconds\nnamespace Cfg")
     for k, v in sorted(config_values().items()):
         lines.append(f"abbrev {k} : Nat := {v}")
